@@ -43,6 +43,7 @@ func (s BStep) String() string {
 // BScenario is a bridge configuration plus script.
 type BScenario struct {
 	Concurrency int     `json:"concurrency,omitempty"`
+	AllowPush   bool    `json:"allow_push,omitempty"` // the bridge's server is push-enabled (nothing pushes: callers see no difference)
 	Salt        uint64  `json:"salt,omitempty"`
 	Pins        []Pin   `json:"pins,omitempty"`
 	NoHooks     bool    `json:"no_hooks,omitempty"`
@@ -154,7 +155,7 @@ func RunBridge(t *testing.T, sc BScenario) (h *BHistory) {
 				return tok, nil
 			}
 		})
-		b := jhttp.NewBridge(assign, &jhttp.BridgeOptions{Server: &jrpc2.ServerOptions{Concurrency: sc.Concurrency}})
+		b := jhttp.NewBridge(assign, &jhttp.BridgeOptions{Server: &jrpc2.ServerOptions{Concurrency: sc.Concurrency, AllowPush: sc.AllowPush}})
 		settle := func() {
 			sched.Settle()
 			mu.Lock()
